@@ -1,4 +1,5 @@
 /- driver for CDCN lines (C10, C11, C12) -/
+import CollectionModel.Generated.Facts
 import Driver.CollDrv
 import CollectionModel.Model.Cdcn.Parse
 import CollectionModel.Model.Cdcn.Format
@@ -21,7 +22,7 @@ def ttName (t : TT) : String :=
 
 /-- the default collator's order on parsed values, as used by `Set[any].MakeFromSequence` -/
 def rankV (a b : Val) : Rank :=
-  match Coll.rank 16 (Coll.fuelFor a b) 0 a b with
+  match Coll.rank Generated.collatorDefaultMaximum (Coll.fuelFor a b) 0 a b with
   | .ok r => r
   | _ => .eq
 
@@ -73,7 +74,7 @@ def cdcnLine (j : Json) : String :=
   let convs := (arr j "conv").toList
   let table : List ((Nat × Nat) × Option Val) := (toks.zip convs).map fun p =>
     ((p.1.line, p.1.pos), if p.2.isNull then none else some (parseVal p.2))
-  let env : Env := { stackSize := 4, nlines := nat j "nlines",
+  let env : Env := { stackSize := Generated.parserStackSize, nlines := nat j "nlines",
                      conv := fun t => ((table.find? (fun e => e.1 == (t.line, t.pos))).map (·.2)).getD none,
                      mkSet := mkSetModel }
   let m := parseTokens env (4 * toks.length + 16) toks
@@ -162,8 +163,8 @@ def rtLine (j : Json) : String :=
     | .ok a => (parseVal (a.getD 0 Json.null), nats (a.getD 1 Json.null) "text")
     | _ => (.undef, [])
   let leafText : Val → Option (List Nat) := fun x => (leaves.find? (fun p => valEq p.1 x && (p.1.tcode == x.tcode))).map (·.2)
-  let m := formatValue leafText 8 (4 * (Coll.Val.size v) + 16) v
-  let deep := nesting v > 8
+  let m := formatValue leafText Generated.formatterDefaultMaximum (4 * (Coll.Val.size v) + 16) v
+  let deep := nesting v > Generated.formatterDefaultMaximum
   if str j "fmt" != "ret" then
     verdict (m != .hang && (match m with | .ok _ => false | _ => true)) false s!"C10/format-{str j "fmt"}/{str j "gen"}" "format did not return"
   else
@@ -174,7 +175,7 @@ def rtLine (j : Json) : String :=
   let convs := (arr j "conv").toList
   let table : List ((Nat × Nat) × Option Val) := (toks.zip convs).map fun p =>
     ((p.1.line, p.1.pos), if p.2.isNull then none else some (parseVal p.2))
-  let env : Env := { stackSize := 4, nlines := nat j "nlines",
+  let env : Env := { stackSize := Generated.parserStackSize, nlines := nat j "nlines",
                      conv := fun t => ((table.find? (fun e => e.1 == (t.line, t.pos))).map (·.2)).getD none,
                      mkSet := mkSetModel }
   let pm := parseTokens env (4 * toks.length + 16) toks
